@@ -234,8 +234,15 @@ def rep_seq(I, kind, elem, n):
     return r
 
 
+def _is_sql(x):
+    return (type(x).__module__ or '').startswith('sqlalchemy')
+
+
 def compare(I, op, a, b):
     a0, b0 = a, b
+    if _is_sql(a) or _is_sql(b):
+        from . import dbmodel
+        return dbmodel.sql_compare(I, op, a, b)
     if op in ('Is', 'IsNot'):
         r = _identity(I, a, b)
         if op == 'Is':
@@ -804,6 +811,8 @@ def to_str(I, v):
         if not v.args:
             return ''
         return Opaque('str', 'str(exc)', taint_of(v), {'nonempty'})
+    if isinstance(v, Opaque) and v.pykind == 'str':
+        return v
     if is_symbolic(v):
         facts = {'nonempty'} if isinstance(v, (SInt, SBool, SEnum)) else set()
         if isinstance(v, Opaque):
